@@ -9,7 +9,7 @@
 //         R:<num>:<has_delta>      (range header: [delta] start follow)
 //   output pp/pm: P=<hextext> W=<returned> C=<count> N=<slots written> R=<bytes read> V=<vals> EQ=<0|1>
 //          pm adds A=<hexaddress scanned>
-//   output sc:    C=<count> N=<slots written> R=<bytes read> V=<vals> P2=<hex reprint> EQ2=<0|1>
+//   output sc:    C=<count> N=<slots written> R=<bytes read> V=<vals> P2=<hex reprint> EQ2=<0|1> V2=<vals of the second scan>
 // The scan is only attempted when the checker's count is positive (its
 // documented precondition); otherwise N=-1 R=-1 V=- .
 #include "hcommon.h"
@@ -223,8 +223,10 @@ int main()
                 int eq = 0;
                 if(s2.nwritten == s2.count && s2.count > 0)
                     eq = rtosc_arg_vals_eq(s.av.data(), s2.av.data(), (size_t)s.count, (size_t)s2.count, NULL);
-                out << " P2=" << hex(text2.p, tl) << " EQ2=" << eq;
-            } else out << " P2=- EQ2=0";
+                out << " P2=" << hex(text2.p, tl) << " EQ2=" << eq << " V2=";
+                // the slots of the second scan (C11's classifier looks at WHERE they differ)
+                if(s2.nwritten >= 0 && s2.nwritten == s2.count) out << show_vals(s2.av.data(), (size_t)s2.nwritten); else out << "-";
+            } else out << " P2=- EQ2=0 V2=-";
             puts(out.str().c_str());
         }
         else puts("BADCASE");
